@@ -1705,14 +1705,16 @@ impl<'de, 'e> de::Deserializer<'de> for YamlDeserializer<'de, 'e> {
                 }
                 None => return Err(Error::eof().with_location(self.ev.last_location())),
             }
-            match self.ev.next()? {
-                Some(Ev::MapEnd { .. }) => {}
-                Some(other) => {
-                    return Err(
-                        Error::unexpected("empty mapping end").with_location(other.location())
-                    );
+            // Either the mapping is empty, or it holds the single null-keyed entry of a key
+            // whose entry has a value of its own; skip to the matching end.
+            let mut depth = 1usize;
+            while depth > 0 {
+                match self.ev.next()? {
+                    Some(Ev::MapStart { .. } | Ev::SeqStart { .. }) => depth += 1,
+                    Some(Ev::MapEnd { .. } | Ev::SeqEnd { .. }) => depth -= 1,
+                    Some(_) => {}
+                    None => return Err(Error::eof().with_location(self.ev.last_location())),
                 }
-                None => return Err(Error::eof().with_location(self.ev.last_location())),
             }
             return visitor.visit_none();
         }
@@ -2299,7 +2301,24 @@ impl<'de, 'e> de::Deserializer<'de> for YamlDeserializer<'de, 'e> {
                                 || sv.is_empty()
                                 || sv == "~"
                                 || sv.eq_ignore_ascii_case("null");
-                            if is_nullish {
+                            // The entry's own value is absent (`? : x` has nothing after the
+                            // key; the parser supplies a zero-length null there): only then does
+                            // the value written inside the key stand in for it. A value that is
+                            // written out is delivered as written.
+                            let outer_value_absent = matches!(
+                                value_events.as_slice(),
+                                [Ev::Scalar {
+                                    raw_tag: None,
+                                    style: ScalarStyle::Plain,
+                                    anchor: 0,
+                                    location,
+                                    ..
+                                }] if location.span().is_empty()
+                            );
+                            if is_nullish && !outer_value_absent {
+                                // Key is still None for an `Option<T>` key type.
+                                kemn = true;
+                            } else if is_nullish {
                                 // Zero-copy probe over recorded events to extract inner key/value spans
                                 if let Some((_ks, _ke, vs, ve)) = one_entry_map_spans(&events) {
                                     // Replace value_events with inner value events and key events with empty map
